@@ -1,4 +1,1041 @@
-//! effect-skeleton extraction (L2) — filled in later
+//! L2: effect-skeleton extraction (DESIGN.md §3.3).
+//!
+//! For a function of the real crate, derive — from its AST, on every run — a Verus function over a ghost
+//! `World` that has the same control structure (sequence, if/match, loops, `?`/return, block scopes, closure
+//! bodies) with every expression replaced by the *events* it performs from a closed alphabet
+//! (contracts/skel/effects.cfg): lock acquire/release (guard variables and temporaries are tracked with
+//! Rust's drop rules), filesystem primitives with a role taken from the path-producing expression,
+//! protocol markers, and calls to other skeletonised functions. Every condition that is not tracked becomes
+//! `nondet()`. All data flow is dropped. Every trace of events of the real function is a trace of its
+//! skeleton, so an ordering contract proved on the skeleton holds for the function.
+
+use crate::{norm, Src};
 use std::collections::BTreeMap;
-pub fn do_skel(_args: &BTreeMap<String, String>) -> Result<(), String> { Err("skel: not implemented".into()) }
-pub fn do_calls(_args: &BTreeMap<String, String>) -> Result<(), String> { Err("calls: not implemented".into()) }
+use syn::spanned::Spanned;
+
+#[derive(Default, Clone)]
+pub struct Cfg {
+    pub locks: Vec<(String, String, String)>,            // method, recv substring, lock
+    pub guardcalls: Vec<(String, String)>,               // method/fn name, lock
+    pub primpaths: Vec<(String, String, bool, Vec<usize>)>, // path suffix, event, fallible, role args
+    pub primmethods: Vec<(String, String, bool, String)>, // method, event, fallible, role-from (recv|arg0|none)
+    pub roles: Vec<(String, String)>,                    // substring, role
+    pub markers: Vec<(String, String, String, String)>,  // method, recv substring, event, required substring in call text ("" = none)
+    pub calls: Vec<(String, String, String)>,            // method, recv substring, target "Type::fn"
+    pub droppables: Vec<(String, String)>,               // producer fn name, drop skeleton target
+    pub callbacks: Vec<(String, String)>,                // callee local name (dyn Fn param / closure var), callback event
+    pub pure: Vec<String>,                               // allowlisted pure method/function names
+    pub tracked: Vec<(String, String)>,                  // condition text -> World bool expression
+    pub tracked_arms: Vec<(String, String, String)>,     // scrutinee text, arm pattern prefix, condition
+    pub tracked_after: Vec<(String, String)>,            // condition text -> event emitted after the `if` (its then-branch diverges)
+    pub exit_markers: Vec<(String, String)>,             // "Type::fn" -> event emitted at successful exits
+}
+
+pub fn load_cfg(path: &str) -> Result<Cfg, String> {
+    let t = std::fs::read_to_string(path).map_err(|e| format!("{path}: {e}"))?;
+    let mut c = Cfg::default();
+    for (n, l) in t.lines().enumerate() {
+        let l = l.trim();
+        if l.is_empty() || l.starts_with('#') {
+            continue;
+        }
+        let p: Vec<&str> = l.split_whitespace().collect();
+        let err = || format!("{}:{}: bad line `{}`", path, n + 1, l);
+        match p[0] {
+            "lock" if p.len() == 4 => c.locks.push((p[1].into(), p[2].into(), p[3].into())),
+            "guardcall" if p.len() == 3 => c.guardcalls.push((p[1].into(), p[2].into())),
+            "primpath" if p.len() >= 4 => {
+                let args = if p.len() > 4 { p[4].split(',').filter_map(|x| x.parse().ok()).collect() } else { vec![] };
+                c.primpaths.push((p[1].into(), p[2].into(), p[3] == "1", args));
+            }
+            "primmethod" if p.len() == 5 => c.primmethods.push((p[1].into(), p[2].into(), p[3] == "1", p[4].into())),
+            "role" if p.len() == 3 => c.roles.push((p[1].into(), p[2].into())),
+            "marker" if p.len() >= 4 => c.markers.push((p[1].into(), p[2].into(), p[3].into(), p.get(4).map(|s| s.to_string()).unwrap_or_default())),
+            "call" if p.len() == 4 => c.calls.push((p[1].into(), p[2].into(), p[3].into())),
+            "droppable" if p.len() == 3 => c.droppables.push((p[1].into(), p[2].into())),
+            "callback" if p.len() == 3 => c.callbacks.push((p[1].into(), p[2].into())),
+            "pure" => c.pure.extend(p[1..].iter().map(|s| s.to_string())),
+            "tracked" if p.len() >= 3 => c.tracked.push((p[1].replace("␣", " "), p[2..].join(" "))),
+            "trackedarm" if p.len() >= 4 => c.tracked_arms.push((p[1].replace("␣", " "), p[2].into(), p[3..].join(" "))),
+            "trackedafter" if p.len() == 3 => c.tracked_after.push((p[1].replace("␣", " "), p[2].into())),
+            "exitmarker" if p.len() == 3 => c.exit_markers.push((p[1].into(), p[2].into())),
+            _ => return Err(err()),
+        }
+    }
+    Ok(c)
+}
+
+#[derive(Clone, Debug)]
+enum AV {
+    None,
+    Res(String),
+    Guard(String),
+    Dropper(String, String),
+}
+
+#[derive(Clone, Debug)]
+enum Bound {
+    Lock(String),
+    Dropper(String),
+}
+
+pub struct Sk<'a> {
+    src: &'a Src,
+    cfg: &'a Cfg,
+    registry: &'a BTreeMap<String, (String, bool)>, // "Type::fn" or "fn" -> (skeleton name, returns result)
+    self_ty: String,
+    out: Vec<String>,
+    ind: usize,
+    scopes: Vec<Vec<(String, Bound)>>,
+    temps: Vec<Vec<String>>,
+    loop_scope_depth: Vec<usize>,
+    n: usize,
+    ret_result: bool,
+    vars: BTreeMap<String, AV>,
+    closures: BTreeMap<String, String>,
+    pub pending_closures: Vec<(String, String)>, // generated closure skeleton fns (name, text)
+    pub errors: Vec<String>,
+    pub events: usize,
+    loop_invs: BTreeMap<usize, String>,
+    loop_counter: usize,
+    fname: String,
+    drop_self: Option<String>,
+    pub unknown_calls: Vec<String>,
+    exit_marker: Option<String>,
+}
+
+fn last_seg(p: &syn::Path) -> String {
+    p.segments.last().map(|s| s.ident.to_string()).unwrap_or_default()
+}
+fn path_str(p: &syn::Path) -> String {
+    p.segments.iter().map(|s| s.ident.to_string()).collect::<Vec<_>>().join("::")
+}
+
+impl<'a> Sk<'a> {
+    fn emit(&mut self, s: &str) {
+        self.out.push(format!("{}{}", "    ".repeat(self.ind), s));
+    }
+    fn fresh(&mut self, p: &str) -> String {
+        self.n += 1;
+        format!("{}{}", p, self.n)
+    }
+    fn text<S: Spanned>(&self, s: &S) -> String {
+        norm(self.src.slice(self.src.range(s)))
+    }
+    fn line<S: Spanned>(&self, s: &S) -> usize {
+        self.src.line_of(self.src.range(s).0)
+    }
+    fn role_of(&mut self, t: &str, at: usize) -> String {
+        for (sub, r) in &self.cfg.roles {
+            let hit = match sub.strip_prefix('=') {
+                Some(exact) => t.trim_start_matches('&') == exact,
+                None => t.contains(sub.as_str()),
+            };
+            if hit {
+                return format!("Role::{}", r);
+            }
+        }
+        self.errors.push(format!("{}:{}: cannot assign a filesystem role to `{}` (skeleton alphabet is closed)", self.src.rel, at, t));
+        "Role::UNKNOWN".into()
+    }
+    fn rel_lock(&mut self, l: &str) {
+        self.emit(&format!("rel_{}(w);", l.to_lowercase()));
+        self.events += 1;
+    }
+    fn release_bound(&mut self, b: &Bound) {
+        match b {
+            Bound::Lock(l) => self.rel_lock(l),
+            Bound::Dropper(f) => {
+                self.emit(&format!("{}(w);", f));
+                self.events += 1;
+            }
+        }
+    }
+    /// release everything down to (and including) scope index `down_to`
+    fn cleanup(&mut self, down_to: usize) {
+        let temps: Vec<String> = self.temps.iter().rev().flat_map(|v| v.iter().rev().cloned()).collect();
+        for l in temps {
+            self.rel_lock(&l);
+        }
+        let scopes = self.scopes.clone();
+        for sc in scopes[down_to..].iter().rev() {
+            for (_, b) in sc.iter().rev() {
+                self.release_bound(b);
+            }
+        }
+    }
+    fn do_return(&mut self, av: &AV) {
+        self.cleanup(0);
+        if let Some(ds) = self.drop_self.clone() {
+            self.emit(&format!("{}(w);", ds));
+        }
+        if self.ret_result {
+            let v = match av {
+                AV::Res(v) => v.clone(),
+                _ => "nondet()".to_string(),
+            };
+            if let Some(ev) = self.exit_marker.clone() {
+                let t = self.fresh("rv");
+                self.emit(&format!("let {} = {};", t, v));
+                self.emit(&format!("if {} {{ ev_{}(w); }}", t, ev));
+                self.emit(&format!("return {};", t));
+                return;
+            }
+            self.emit(&format!("return {};", v));
+        } else {
+            if let Some(ev) = self.exit_marker.clone() {
+                self.emit(&format!("ev_{}(w);", ev));
+            }
+            self.emit("return;");
+        }
+    }
+    fn begin_temps(&mut self) {
+        self.temps.push(vec![]);
+    }
+    fn end_temps(&mut self) {
+        if let Some(t) = self.temps.pop() {
+            for l in t.iter().rev() {
+                self.rel_lock(l);
+            }
+        }
+    }
+    fn lock_of_call(&self, method: &str, recv_text: &str) -> Option<String> {
+        for (m, sub, l) in &self.cfg.locks {
+            if m == method && recv_text.contains(sub.as_str()) {
+                return Some(l.clone());
+            }
+        }
+        for (m, l) in &self.cfg.guardcalls {
+            if m == method {
+                return Some(l.clone());
+            }
+        }
+        None
+    }
+    fn acq(&mut self, l: &str) {
+        self.emit(&format!("acq_{}(w);", l.to_lowercase()));
+        self.events += 1;
+    }
+
+    fn strip<'e>(e: &'e syn::Expr) -> &'e syn::Expr {
+        match e {
+            syn::Expr::Paren(p) => Self::strip(&p.expr),
+            syn::Expr::Reference(r) => Self::strip(&r.expr),
+            syn::Expr::Group(g) => Self::strip(&g.expr),
+            _ => e,
+        }
+    }
+
+    fn resolve_call(&self, name: &str, recv_text: &str, path: Option<&str>) -> Option<(String, bool)> {
+        if let Some(p) = path {
+            // Type::fn or Self::fn
+            let p2 = p.replace("Self::", &format!("{}::", self.self_ty));
+            let segs: Vec<&str> = p2.split("::").collect();
+            if segs.len() >= 2 {
+                let key = format!("{}::{}", segs[segs.len() - 2], segs[segs.len() - 1]);
+                if let Some(v) = self.registry.get(&key) {
+                    return Some(v.clone());
+                }
+            }
+            if let Some(v) = self.registry.get(segs[segs.len() - 1]) {
+                if segs.len() == 1 || !self.registry.keys().any(|k| k.ends_with(&format!("::{}", segs[segs.len() - 1]))) {
+                    return Some(v.clone());
+                }
+            }
+            return None;
+        }
+        for (m, sub, target) in &self.cfg.calls {
+            if m == name && recv_text.contains(sub.as_str()) {
+                return self.registry.get(target).cloned();
+            }
+        }
+        None
+    }
+
+    fn call_skel(&mut self, sk: &(String, bool)) -> AV {
+        self.events += 1;
+        if sk.1 {
+            let v = self.fresh("ok");
+            self.emit(&format!("let {} = {}(w);", v, sk.0));
+            AV::Res(v)
+        } else {
+            self.emit(&format!("{}(w);", sk.0));
+            AV::None
+        }
+    }
+
+    fn expr(&mut self, e: &syn::Expr) -> AV {
+        use syn::Expr as E;
+        match e {
+            E::Paren(p) => self.expr(&p.expr),
+            E::Group(p) => self.expr(&p.expr),
+            E::Reference(r) => self.expr(&r.expr),
+            E::Unary(u) => {
+                self.expr(&u.expr);
+                AV::None
+            }
+            E::Cast(c) => {
+                self.expr(&c.expr);
+                AV::None
+            }
+            E::Field(f) => {
+                self.expr(&f.base);
+                AV::None
+            }
+            E::Index(i) => {
+                self.expr(&i.expr);
+                self.expr(&i.index);
+                AV::None
+            }
+            E::Binary(b) => {
+                self.expr(&b.left);
+                self.expr(&b.right);
+                AV::None
+            }
+            E::Assign(a) => {
+                let av = self.expr(&a.right);
+                self.expr(&a.left);
+                if let syn::Expr::Path(p) = &*a.left {
+                    if let Some(id) = p.path.get_ident() {
+                        self.vars.insert(id.to_string(), av);
+                    }
+                }
+                AV::None
+            }
+            E::Tuple(t) => {
+                for x in &t.elems {
+                    self.expr(x);
+                }
+                AV::None
+            }
+            E::Array(t) => {
+                for x in &t.elems {
+                    self.expr(x);
+                }
+                AV::None
+            }
+            E::Repeat(r) => {
+                self.expr(&r.expr);
+                AV::None
+            }
+            E::Range(r) => {
+                if let Some(a) = &r.start {
+                    self.expr(a);
+                }
+                if let Some(a) = &r.end {
+                    self.expr(a);
+                }
+                AV::None
+            }
+            E::Struct(s) => {
+                for f in &s.fields {
+                    self.expr(&f.expr);
+                }
+                if let Some(r) = &s.rest {
+                    self.expr(r);
+                }
+                AV::None
+            }
+            E::Lit(_) | E::Macro(_) | E::Continue(_) | E::Infer(_) | E::Const(_) | E::Verbatim(_) => {
+                if let E::Continue(_) = e {
+                    let d = *self.loop_scope_depth.last().unwrap_or(&0);
+                    // release guards of scopes opened inside the loop body
+                    let scopes = self.scopes.clone();
+                    for sc in scopes[d..].iter().rev() {
+                        for (_, b) in sc.iter().rev() {
+                            self.release_bound(b);
+                        }
+                    }
+                    self.emit("continue;");
+                }
+                AV::None
+            }
+            E::Path(p) => {
+                if let Some(id) = p.path.get_ident() {
+                    if let Some(av) = self.vars.get(&id.to_string()) {
+                        return av.clone();
+                    }
+                }
+                AV::None
+            }
+            E::Let(l) => self.expr(&l.expr),
+            E::Try(t) => {
+                let av = self.expr(&t.expr);
+                let c = match &av {
+                    AV::Res(v) => format!("!{}", v),
+                    AV::Dropper(_, v) if !v.is_empty() => format!("!{}", v),
+                    _ => "nondet()".to_string(),
+                };
+                self.emit(&format!("if {} {{", c));
+                self.ind += 1;
+                self.do_return(&AV::Res("false".into()));
+                self.ind -= 1;
+                self.emit("}");
+                match av {
+                    AV::Dropper(_, _) | AV::Guard(_) => av,
+                    _ => AV::None,
+                }
+            }
+            E::Return(r) => {
+                let av = match &r.expr {
+                    Some(x) => self.expr(x),
+                    None => AV::None,
+                };
+                self.do_return(&av);
+                AV::None
+            }
+            E::Break(_) => {
+                let d = *self.loop_scope_depth.last().unwrap_or(&0);
+                let scopes = self.scopes.clone();
+                for sc in scopes[d..].iter().rev() {
+                    for (_, b) in sc.iter().rev() {
+                        self.release_bound(b);
+                    }
+                }
+                self.emit("break;");
+                AV::None
+            }
+            E::Block(b) => self.block(&b.block),
+            E::Unsafe(b) => self.block(&b.block),
+            E::Closure(c) => {
+                // a closure value used as an argument: its body may run (0 or 1 times is an under-count for loops,
+                // but closure bodies in scope carry no events on the unchanged tree; any event here is still seen)
+                let mark = self.out.len();
+                let ev0 = self.events;
+                self.emit("if nondet() {");
+                self.ind += 1;
+                self.scopes.push(vec![]);
+                self.expr(&c.body);
+                let sc = self.scopes.pop().unwrap();
+                for (_, b) in sc.iter().rev() {
+                    self.release_bound(b);
+                }
+                self.ind -= 1;
+                self.emit("}");
+                if self.events == ev0 {
+                    self.out.truncate(mark);
+                }
+                AV::None
+            }
+            E::If(i) => self.if_expr(i),
+            E::Match(m) => self.match_expr(m),
+            E::ForLoop(l) => {
+                self.begin_temps();
+                self.expr(&l.expr);
+                self.end_temps();
+                self.loop_body(&l.body, None);
+                AV::None
+            }
+            E::While(l) => {
+                self.loop_body(&l.body, Some(&l.cond));
+                AV::None
+            }
+            E::Loop(l) => {
+                self.loop_body_plain(&l.body);
+                AV::None
+            }
+            E::MethodCall(m) => self.method_call(m),
+            E::Call(c) => self.call(c),
+            _ => {
+                self.errors.push(format!("{}:{}: unsupported expression kind in skeleton", self.src.rel, self.line(e)));
+                AV::None
+            }
+        }
+    }
+
+    fn loop_header(&mut self) -> String {
+        self.loop_counter += 1;
+        // default loop invariant: every iteration leaves the World as it found it
+        let g = format!("wl{}", self.loop_counter);
+        self.emit(&format!("let ghost {} = *w;", g));
+        let inv = self.loop_invs.get(&self.loop_counter).cloned().unwrap_or_else(|| format!("invariant same({}, *w),", g));
+        inv
+    }
+
+    fn loop_body(&mut self, body: &syn::Block, cond: Option<&syn::Expr>) {
+        let inv = self.loop_header();
+        self.emit("loop");
+        for l in inv.lines() {
+            let t = l.trim_end().to_string();
+            self.emit(&format!("    {}", t.trim_start()));
+        }
+        self.emit("{");
+        self.ind += 1;
+        if let Some(c) = cond {
+            self.begin_temps();
+            self.expr(c);
+            self.end_temps();
+        }
+        self.emit("if nondet() { break; }");
+        self.loop_scope_depth.push(self.scopes.len());
+        self.block(body);
+        self.loop_scope_depth.pop();
+        self.ind -= 1;
+        self.emit("}");
+    }
+    fn loop_body_plain(&mut self, body: &syn::Block) {
+        let inv = self.loop_header();
+        self.emit("loop");
+        for l in inv.lines() {
+            self.emit(&format!("    {}", l.trim()));
+        }
+        self.emit("{");
+        self.ind += 1;
+        self.loop_scope_depth.push(self.scopes.len());
+        self.block(body);
+        self.loop_scope_depth.pop();
+        self.ind -= 1;
+        self.emit("}");
+    }
+
+    fn tracked_cond(&self, t: &str) -> Option<String> {
+        for (sub, expr) in &self.cfg.tracked {
+            if t == sub.as_str() {
+                return Some(expr.clone());
+            }
+        }
+        None
+    }
+
+    fn if_expr(&mut self, i: &syn::ExprIf) -> AV {
+        // condition (temporaries of the condition are dropped before the branches)
+        self.begin_temps();
+        let ctext = self.text(&*i.cond);
+        let cav = self.expr(&i.cond);
+        self.end_temps();
+        let mut cond = "nondet()".to_string();
+        if let syn::Expr::Let(l) = &*i.cond {
+            let pt = self.text(&*l.pat);
+            if let AV::Res(v) = &cav {
+                if pt.starts_with("Ok") {
+                    cond = v.clone();
+                } else if pt.starts_with("Err") {
+                    cond = format!("!{}", v);
+                }
+            }
+        } else if let Some(t) = self.tracked_cond(&ctext) {
+            cond = t;
+        } else if let syn::Expr::Path(p) = Self::strip(&i.cond) {
+            // a boolean local that was assigned from a tracked source keeps its nondet value: reuse the variable
+            if let Some(id) = p.path.get_ident() {
+                if let Some(AV::Res(v)) = self.vars.get(&id.to_string()) {
+                    cond = v.clone();
+                }
+            }
+        }
+        let res = self.fresh("ifv");
+        self.emit(&format!("let mut {}: bool = nondet();", res));
+        self.emit(&format!("if {} {{", cond));
+        self.ind += 1;
+        let a = self.block(&i.then_branch);
+        if let AV::Res(v) = &a {
+            self.emit(&format!("{} = {};", res, v));
+        }
+        self.ind -= 1;
+        if let Some((_, eb)) = &i.else_branch {
+            self.emit("} else {");
+            self.ind += 1;
+            let b = match &**eb {
+                syn::Expr::Block(b) => self.block(&b.block),
+                other => self.expr(other),
+            };
+            if let AV::Res(v) = &b {
+                self.emit(&format!("{} = {};", res, v));
+            }
+            self.ind -= 1;
+        }
+        self.emit("}");
+        for (t, ev) in self.cfg.tracked_after.clone() {
+            if t == ctext {
+                self.emit(&format!("ev_{}(w);", ev));
+                self.events += 1;
+            }
+        }
+        AV::Res(res)
+    }
+
+    fn arm_chain(&mut self, arms: &[&syn::Arm], res: &str) {
+        let n = arms.len();
+        for (k, arm) in arms.iter().enumerate() {
+            if n == 1 {
+                self.emit("{");
+            } else if k == 0 {
+                self.emit("if nondet() {");
+            } else if k + 1 == n {
+                self.emit("} else {");
+            } else {
+                self.emit("} else if nondet() {");
+            }
+            self.ind += 1;
+            self.scopes.push(vec![]);
+            if let Some((_, g)) = &arm.guard {
+                self.expr(g);
+            }
+            let av = self.expr(&arm.body);
+            if let AV::Res(v) = &av {
+                self.emit(&format!("{} = {};", res, v));
+            }
+            let sc = self.scopes.pop().unwrap();
+            for (_, b) in sc.iter().rev() {
+                self.release_bound(b);
+            }
+            self.ind -= 1;
+        }
+        if n > 0 {
+            self.emit("}");
+        }
+    }
+
+    fn match_expr(&mut self, m: &syn::ExprMatch) -> AV {
+        self.begin_temps();
+        let sav = self.expr(&m.expr);
+        let res = self.fresh("mv");
+        self.emit(&format!("let mut {}: bool = nondet();", res));
+        let pats: Vec<String> = m.arms.iter().map(|a| self.text(&a.pat)).collect();
+        let stext = self.text(&*m.expr);
+        let ta: Vec<(String, String)> = self.cfg.tracked_arms.iter().filter(|(s, _, _)| stext.contains(s.as_str())).map(|(_, p, c)| (p.clone(), c.clone())).collect();
+        if !ta.is_empty() {
+            // arms selected by tracked World conditions (declared exclusive and exhaustive in effects.cfg)
+            let mut first = true;
+            for (arm, pt) in m.arms.iter().zip(pats.iter()) {
+                let cond = ta.iter().find(|(p, _)| pt.starts_with(p.as_str())).map(|(_, c)| c.clone()).unwrap_or_else(|| "nondet()".into());
+                self.emit(&format!("{}if {} {{", if first { "" } else { "} else " }, cond));
+                first = false;
+                self.ind += 1;
+                self.scopes.push(vec![]);
+                let av = self.expr(&arm.body);
+                if let AV::Res(v) = &av {
+                    self.emit(&format!("{} = {};", res, v));
+                }
+                let sc = self.scopes.pop().unwrap();
+                for (_, b) in sc.iter().rev() {
+                    self.release_bound(b);
+                }
+                self.ind -= 1;
+            }
+            self.emit("}");
+            self.end_temps();
+            return AV::Res(res);
+        }
+        let all_tagged = pats.iter().all(|p| p.starts_with("Ok") || p.starts_with("Err"));
+        if let (AV::Res(v), true) = (&sav, all_tagged) {
+            let oks: Vec<&syn::Arm> = m.arms.iter().zip(pats.iter()).filter(|(_, p)| p.starts_with("Ok")).map(|(a, _)| a).collect();
+            let errs: Vec<&syn::Arm> = m.arms.iter().zip(pats.iter()).filter(|(_, p)| p.starts_with("Err")).map(|(a, _)| a).collect();
+            self.emit(&format!("if {} {{", v));
+            self.ind += 1;
+            self.arm_chain(&oks, &res);
+            self.ind -= 1;
+            self.emit("} else {");
+            self.ind += 1;
+            self.arm_chain(&errs, &res);
+            self.ind -= 1;
+            self.emit("}");
+        } else {
+            let all: Vec<&syn::Arm> = m.arms.iter().collect();
+            self.arm_chain(&all, &res);
+        }
+        self.end_temps();
+        AV::Res(res)
+    }
+
+    fn method_call(&mut self, m: &syn::ExprMethodCall) -> AV {
+        let name = m.method.to_string();
+        let recv_text = self.text(&*m.receiver);
+        let call_text = self.text(m);
+        let at = self.line(m);
+        // guard temporaries / lock acquisition
+        if let Some(l) = self.lock_of_call(&name, &recv_text) {
+            self.expr(&m.receiver);
+            self.acq(&l);
+            if let Some(t) = self.temps.last_mut() {
+                t.push(l.clone());
+            }
+            return AV::Guard(l);
+        }
+        let rav = self.expr(&m.receiver);
+        for a in &m.args {
+            // closures passed to combinators are handled by expr(Closure)
+            self.expr(a);
+        }
+        // markers
+        for (mm, sub, ev, req) in self.cfg.markers.clone() {
+            if mm == name && recv_text.contains(sub.as_str()) {
+                let (strict, reqt) = match req.strip_prefix('!') { Some(r) if req.starts_with("!!") => (true, r.to_string()), _ => (false, req.clone()) };
+                let has = reqt.is_empty() || call_text.replace(' ', "").contains(&reqt.replace(' ', ""));
+                if !has {
+                    if strict {
+                        self.errors.push(format!("{}:{}: `{}` has the marker shape `{}` but not the expected predicate `{}`", self.src.rel, at, call_text, ev, reqt));
+                    } else {
+                        continue;
+                    }
+                }
+                self.emit(&format!("ev_{}(w);", ev));
+                self.events += 1;
+                return AV::None;
+            }
+        }
+        // callbacks by local name: x.call(..) not used; closures are called as functions
+        for (pm, ev, fallible, from) in self.cfg.primmethods.clone() {
+            if pm == name {
+                if name == "open" && !recv_text.contains("OpenOptions") {
+                    continue;
+                }
+                if name == "send" && !recv_text.contains("sender") {
+                    continue;
+                }
+                if name == "flush" || name == "write_all" || name == "sync_data" || name == "sync_all" || name == "into_inner" || name == "try_lock" || name == "reopen" || name == "read_at" {
+                    // receiver gives the role
+                }
+                let mut evname = ev.clone();
+                let role_src = match from.as_str() {
+                    "recv" => recv_text.clone(),
+                    "arg0" => m.args.first().map(|a| self.text(a)).unwrap_or_default(),
+                    _ => String::new(),
+                };
+                if name == "open" {
+                    let r = recv_text.replace(' ', "");
+                    evname = if r.contains(".truncate(true)") { "open_create_trunc".into() } else if r.contains(".append(true)") { "open_append_create".into() } else if r.contains(".read(true)") && !r.contains(".write(true)") { "open_read".into() } else { "open_other".into() };
+                }
+                let role = if from == "none" { String::new() } else { format!(", {}", self.role_of(&role_src, at)) };
+                self.events += 1;
+                if fallible {
+                    let v = self.fresh("ok");
+                    self.emit(&format!("let {} = ev_{}(w{});", v, evname, role));
+                    return AV::Res(v);
+                } else {
+                    self.emit(&format!("ev_{}(w{});", evname, role));
+                    return AV::None;
+                }
+            }
+        }
+        // Result/Option combinators keep the tracked result
+        match name.as_str() {
+            "map_err" | "map" | "ok_or" | "ok_or_else" | "inspect_err" | "context" | "or_else" | "and_then" => return rav,
+            _ => {}
+        }
+        // droppable consumers: by-value method on a bound droppable
+        if let syn::Expr::Path(p) = Self::strip(&m.receiver) {
+            if let Some(id) = p.path.get_ident() {
+                let idn = id.to_string();
+                let mut found = None;
+                for sc in self.scopes.iter() {
+                    for (n, b) in sc.iter() {
+                        if *n == idn {
+                            if let Bound::Dropper(_) = b {
+                                found = Some(idn.clone());
+                            }
+                        }
+                    }
+                }
+                if found.is_some() {
+                    if let Some(sk) = self.resolve_call(&name, &recv_text, None) {
+                        // moved into the callee: unbind (the callee's skeleton runs the drop at its exits)
+                        for sc in self.scopes.iter_mut() {
+                            sc.retain(|(n, _)| *n != idn);
+                        }
+                        return self.call_skel(&sk);
+                    }
+                }
+            }
+        }
+        if let Some(sk) = self.resolve_call(&name, &recv_text, None) {
+            let av = self.call_skel(&sk);
+            // producer of a droppable?
+            for (prod, dropfn) in self.cfg.droppables.clone() {
+                if prod == name {
+                    if let Some(d) = self.registry.get(&dropfn) {
+                        let okv = if let AV::Res(v) = &av { v.clone() } else { String::new() };
+                        return AV::Dropper(d.0.clone(), okv);
+                    }
+                }
+            }
+            return av;
+        }
+        if !self.cfg.pure.iter().any(|p| *p == name) {
+            self.unknown_calls.push(format!("{}:{}: .{}()", self.src.rel, at, name));
+        }
+        AV::None
+    }
+
+    fn call(&mut self, c: &syn::ExprCall) -> AV {
+        let at = self.line(c);
+        let (pstr, lastn) = match &*c.func {
+            syn::Expr::Path(p) => (path_str(&p.path), last_seg(&p.path)),
+            other => (self.text(other), String::new()),
+        };
+        // drop(guard)
+        if pstr == "drop" && c.args.len() == 1 {
+            if let syn::Expr::Path(p) = Self::strip(&c.args[0]) {
+                if let Some(id) = p.path.get_ident() {
+                    let idn = id.to_string();
+                    let mut hit: Option<Bound> = None;
+                    for sc in self.scopes.iter_mut() {
+                        if let Some(pos) = sc.iter().position(|(n, _)| *n == idn) {
+                            hit = Some(sc.remove(pos).1);
+                        }
+                    }
+                    if let Some(b) = hit {
+                        self.release_bound(&b);
+                    }
+                }
+            }
+            return AV::None;
+        }
+        let mut arg_avs = vec![];
+        if lastn == "spawn" {
+            // a detached thread: its events are not part of this call's trace (skeletonised separately if needed)
+            return AV::None;
+        }
+        for a in &c.args {
+            arg_avs.push(self.expr(a));
+        }
+        match pstr.as_str() {
+            "Ok" => return AV::Res("true".into()),
+            "Err" => return AV::Res("false".into()),
+            "Some" | "Box::new" | "Arc::new" | "Mutex::new" | "RwLock::new" | "BufWriter::new" | "BufReader::new" | "PathBuf::from" | "String::from" => {
+                return AV::None;
+            }
+            _ => {}
+        }
+        // callbacks: local closure variables and dyn Fn parameters
+        for (nm, ev) in self.cfg.callbacks.clone() {
+            if pstr == nm {
+                if let Some(cl) = self.closures.get(&nm).cloned() {
+                    let v = self.fresh("ok");
+                    self.emit(&format!("let {} = {}(w);", v, cl));
+                    self.events += 1;
+                    return AV::Res(v);
+                }
+                let v = self.fresh("ok");
+                self.emit(&format!("let {} = {}(w);", v, ev));
+                self.events += 1;
+                return AV::Res(v);
+            }
+        }
+        for (suffix, ev, fallible, roleargs) in self.cfg.primpaths.clone() {
+            if pstr == suffix || pstr.ends_with(&format!("::{}", suffix)) {
+                let mut roles = String::new();
+                for i in roleargs {
+                    let t = c.args.iter().nth(i).map(|a| self.text(a)).unwrap_or_default();
+                    let r = self.role_of(&t, at);
+                    roles.push_str(&format!(", {}", r));
+                }
+                self.events += 1;
+                if fallible {
+                    let v = self.fresh("ok");
+                    self.emit(&format!("let {} = ev_{}(w{});", v, ev, roles));
+                    return AV::Res(v);
+                } else {
+                    self.emit(&format!("ev_{}(w{});", ev, roles));
+                    return AV::None;
+                }
+            }
+        }
+        if let Some(sk) = self.resolve_call(&lastn, "", Some(&pstr)) {
+            let av = self.call_skel(&sk);
+            for (prod, dropfn) in self.cfg.droppables.clone() {
+                if prod == lastn {
+                    if let Some(d) = self.registry.get(&dropfn) {
+                        let okv = if let AV::Res(v) = &av { v.clone() } else { String::new() };
+                        return AV::Dropper(d.0.clone(), okv);
+                    }
+                }
+            }
+            return av;
+        }
+        if pstr.ends_with("OpenOptions::new") {
+            return AV::None;
+        }
+        if pstr.starts_with("std::fs::") || pstr.starts_with("fs::") || pstr.starts_with("File::") || pstr.starts_with("std::fs::File::") {
+            // a filesystem call outside the alphabet: unexplained effect (frame obligation, C06)
+            self.emit("ev_unexplained_fs(w);");
+            self.events += 1;
+            return AV::None;
+        }
+        if !self.cfg.pure.iter().any(|p| *p == lastn || *p == pstr) {
+            self.unknown_calls.push(format!("{}:{}: {}()", self.src.rel, at, pstr));
+        }
+        AV::None
+    }
+
+    fn block(&mut self, b: &syn::Block) -> AV {
+        self.scopes.push(vec![]);
+        let mut last = AV::None;
+        let n = b.stmts.len();
+        for (k, s) in b.stmts.iter().enumerate() {
+            last = self.stmt(s, k + 1 == n);
+        }
+        let sc = self.scopes.pop().unwrap();
+        for (_, b) in sc.iter().rev() {
+            self.release_bound(b);
+        }
+        last
+    }
+
+    fn bind_pat(&mut self, pat: &syn::Pat, av: AV) {
+        let id = match pat {
+            syn::Pat::Ident(i) => Some(i.ident.to_string()),
+            syn::Pat::Type(t) => match &*t.pat {
+                syn::Pat::Ident(i) => Some(i.ident.to_string()),
+                _ => None,
+            },
+            _ => None,
+        };
+        if let Some(id) = id {
+            match av {
+                AV::Guard(l) => {
+                    // the temporary becomes a named guard: remove from statement temporaries
+                    if let Some(t) = self.temps.last_mut() {
+                        if let Some(pos) = t.iter().rposition(|x| *x == l) {
+                            t.remove(pos);
+                        }
+                    }
+                    self.scopes.last_mut().unwrap().push((id, Bound::Lock(l)));
+                }
+                AV::Dropper(f, _) => {
+                    self.scopes.last_mut().unwrap().push((id, Bound::Dropper(f)));
+                }
+                other => {
+                    self.vars.insert(id, other);
+                }
+            }
+        } else if let syn::Pat::Tuple(t) = pat {
+            // (a, b) = { block } : forget tracked values; bool-looking names become fresh nondet
+            for p in &t.elems {
+                if let syn::Pat::Ident(i) = p {
+                    let v = self.fresh("nd");
+                    self.emit(&format!("let {} = nondet();", v));
+                    self.vars.insert(i.ident.to_string(), AV::Res(v));
+                }
+            }
+        }
+    }
+
+    fn stmt(&mut self, s: &syn::Stmt, is_last: bool) -> AV {
+        match s {
+            syn::Stmt::Local(l) => {
+                if let Some(init) = &l.init {
+                    // closure bound to a local: separate skeleton function
+                    if let syn::Expr::Closure(c) = Self::strip(&init.expr) {
+                        if let syn::Pat::Ident(pi) = &l.pat {
+                            let cname = format!("{}_closure_{}", self.fname, pi.ident);
+                            let text = self.closure_fn(&cname, c);
+                            self.pending_closures.push((cname.clone(), text));
+                            self.closures.insert(pi.ident.to_string(), cname);
+                            return AV::None;
+                        }
+                    }
+                    self.begin_temps();
+                    let av = self.expr(&init.expr);
+                    // a guard bound by `let` lives to the end of the scope; other temporaries die here
+                    let bound_guard = matches!(av, AV::Guard(_) | AV::Dropper(_, _));
+                    if bound_guard {
+                        self.bind_pat(&l.pat, av.clone());
+                    }
+                    self.end_temps();
+                    if let Some((_, eb)) = &init.diverge {
+                        self.emit("if nondet() {");
+                        self.ind += 1;
+                        self.expr(eb);
+                        self.ind -= 1;
+                        self.emit("}");
+                    }
+                    if !bound_guard {
+                        self.bind_pat(&l.pat, av);
+                    }
+                }
+                AV::None
+            }
+            syn::Stmt::Expr(e, semi) => {
+                self.begin_temps();
+                let av = self.expr(e);
+                self.end_temps();
+                if semi.is_none() && is_last {
+                    av
+                } else {
+                    AV::None
+                }
+            }
+            syn::Stmt::Macro(_) | syn::Stmt::Item(_) => AV::None,
+        }
+    }
+
+    fn closure_fn(&mut self, name: &str, c: &syn::ExprClosure) -> String {
+        // translate the closure body as its own skeleton function (contract from the callback table in world.rs)
+        let mut sub = Sk {
+            src: self.src, cfg: self.cfg, registry: self.registry, self_ty: self.self_ty.clone(), out: vec![], ind: 1,
+            scopes: vec![], temps: vec![], loop_scope_depth: vec![], n: 0, ret_result: true, vars: BTreeMap::new(),
+            closures: BTreeMap::new(), pending_closures: vec![], errors: vec![], events: 0, loop_invs: BTreeMap::new(),
+            loop_counter: 0, fname: name.to_string(), drop_self: None, unknown_calls: vec![], exit_marker: None,
+        };
+        sub.scopes.push(vec![]);
+        let av = sub.expr(&c.body);
+        let v = match av { AV::Res(v) => v, _ => "nondet()".into() };
+        sub.emit(&v);
+        self.errors.extend(sub.errors.clone());
+        self.unknown_calls.extend(sub.unknown_calls.clone());
+        self.events += sub.events;
+        sub.out.join("\n")
+    }
+}
+
+pub struct SkelOut {
+    pub text: String,
+    pub closures: Vec<(String, String)>,
+    pub events: usize,
+    pub unknown_calls: Vec<String>,
+}
+
+#[allow(clippy::too_many_arguments)]
+pub fn skeleton_of(
+    src: &Src, cfg: &Cfg, registry: &BTreeMap<String, (String, bool)>, self_ty: &str, fname: &str, sig: &syn::Signature,
+    block: &syn::Block, loop_invs: BTreeMap<usize, String>, drop_self: Option<String>, exit_marker: Option<String>,
+) -> Result<SkelOut, String> {
+    let ret_result = match &sig.output {
+        syn::ReturnType::Type(_, t) => norm(src.slice(src.range(&**t))).starts_with("Result"),
+        _ => false,
+    };
+    let mut sk = Sk {
+        src, cfg, registry, self_ty: self_ty.to_string(), out: vec![], ind: 1, scopes: vec![], temps: vec![], loop_scope_depth: vec![], n: 0,
+        ret_result, vars: BTreeMap::new(), closures: BTreeMap::new(), pending_closures: vec![], errors: vec![], events: 0, loop_invs,
+        loop_counter: 0, fname: fname.to_string(), drop_self: drop_self.clone(), unknown_calls: vec![], exit_marker: exit_marker.clone(),
+    };
+    // dyn Fn parameters that are callbacks are resolved by name through cfg.callbacks
+    let av = sk.block(block);
+    if let Some(ds) = &drop_self {
+        sk.emit(&format!("{}(w);", ds));
+    }
+    if !ret_result {
+        if let Some(ev) = &exit_marker {
+            sk.emit(&format!("ev_{}(w);", ev));
+        }
+    }
+    if ret_result {
+        let v = match av { AV::Res(v) => v, _ => "nondet()".into() };
+        if let Some(ev) = &exit_marker {
+            sk.emit(&format!("let rv_tail = {};", v));
+            sk.emit(&format!("if rv_tail {{ ev_{}(w); }}", ev));
+            sk.emit("rv_tail");
+        } else {
+            sk.emit(&v);
+        }
+    }
+    if !sk.errors.is_empty() {
+        return Err(sk.errors.join("; "));
+    }
+    Ok(SkelOut { text: sk.out.join("\n"), closures: sk.pending_closures, events: sk.events, unknown_calls: sk.unknown_calls })
+}
+
+pub fn returns_result(src: &Src, sig: &syn::Signature) -> bool {
+    match &sig.output {
+        syn::ReturnType::Type(_, t) => norm(src.slice(src.range(&**t))).starts_with("Result"),
+        _ => false,
+    }
+}
+
+pub fn do_skel(_args: &BTreeMap<String, String>) -> Result<(), String> {
+    Err("use `vx extract` with @@skel directives".into())
+}
+pub fn do_calls(_args: &BTreeMap<String, String>) -> Result<(), String> {
+    Err("calls: not implemented".into())
+}
